@@ -7,6 +7,7 @@ mod enc_x86;
 mod hist;
 mod panics;
 mod rng;
+mod sigs;
 mod threads;
 mod util;
 
@@ -30,6 +31,7 @@ fn main() {
         "alloc" => alloc::run(&a, &mut out),
         "threads" => threads::run(&a, &mut out),
         "panics" => panics::run(&a, &mut out),
+        "sigs" => sigs::run(&a, &mut out),
         x => {
             eprintln!("unknown command {x}");
             std::process::exit(2);
